@@ -293,7 +293,15 @@ func (o *ovsdbClient) connect(ctx context.Context, reconnect bool) error {
 				continue
 			}
 
-			// Restart all monitors; each monitor will handle purging
+			// With several monitors the whole cache is rebuilt from their
+			// replies: purge it once, before the first of them is restarted
+			// (a purge per monitor would drop what the monitors restarted
+			// before it have just repopulated)
+			if len(db.monitors) > 1 {
+				db.cache.Purge(db.model)
+			}
+
+			// Restart all monitors; a single monitor will handle purging
 			// the cache if necessary
 			for id, request := range db.monitors {
 				err := o.monitor(ctx, MonitorCookie{DatabaseName: dbName, ID: id}, true, request)
@@ -1069,7 +1077,9 @@ func (o *ovsdbClient) monitor(ctx context.Context, cookie MonitorCookie, reconne
 	// server. In this case the reply contains only updates to the existing
 	// cache data, while otherwise it includes complete DB data so we must
 	// purge to get rid of old rows.
-	if reconnecting && (len(db.monitors) > 1 || !lastTransactionFound) {
+	// (With more than one monitor the cache has been purged once already,
+	// before the monitors were restarted.)
+	if reconnecting && len(db.monitors) == 1 && !lastTransactionFound {
 		db.cache.Purge(db.model)
 	}
 
